@@ -263,6 +263,8 @@ type progVariant struct {
 	passthrough bool   // the initializer w1 and the graph input a are declared as graph outputs too
 	valueInfo   bool   // the graph carries value_info entries (name, type, shape) for every intermediate value
 	extraOut    bool   // the last node lists one output name more than its operator returns; that name is a graph output
+	dupOut      bool   // the last declared graph output is declared twice
+	fedInter    bool   // the caller's map also carries (other) tensors named like the intermediate values
 }
 
 // build marshals the program and computes the reference environment.
@@ -355,6 +357,21 @@ func buildProgram(p *program, valueSet int, pv progVariant) (*modelCase, string)
 		// no tensor can be bound to that name: the declared output cannot be present and non-nil, so Run must fail
 		expect, expected = "error", nil
 	}
+	if pv.dupOut && len(g.Output) > 0 {
+		g.Output = append(g.Output, hx.ValueInfoNoShape(g.Output[len(g.Output)-1].GetName()))
+	}
+	if pv.fedInter && expected != nil {
+		// a name the graph does not declare as input is not an input: the nodes decide these values (Run may refuse
+		// the surplus entries, but must not let them replace a node's result)
+		for name, t := range expected {
+			if _, isIn := feedAll[name]; !isIn && name != "w1" && name != "w2" && t.DT == ref.F32 {
+				feed[name] = recFill(ref.F32, t.Shape, 91)
+			}
+		}
+		if expect == "outputs" {
+			expect = "outputs-or-error"
+		}
+	}
 	mc := newModelCase(hx.Marshal(hx.Model(g, 13)), feed, expect, expected, hx.Tol(1e-4, 1e-4), "")
 	mc.Graph = p.text()
 	return mc, expect
@@ -366,7 +383,7 @@ func checkC01(c *hx.Checker) {
 		"Templates: Add/Sub/Mul (all ordered pairs for Sub), Relu, Transpose, Softmax{axis=-1}, Softmax{axis=0}, MatMul, Gemm{transB}, Gemm{transA,alpha=.5,beta=2} (C wired / omitted / empty), Concat+Slice, Reshape, Squeeze, Constant, RNN/GRU/LSTM with default and with explicit non-default activations (initial_h omitted / empty / wired; 5 output naming schemes: arbitrary, spec names, permuted spec names, trailing output omitted, skipped output with empty name). " +
 		"BFS: all programs of depth <= 2 over the full alphabet; depth 3 over the reduced alphabet {Sub, Relu, Transpose, Gemm2, GRU} as chains (each node consumes its predecessor's result)" +
 		map[bool]string{true: " and, thorough, unrestricted depth 3 over the reduced alphabet plus ALL depth-3 programs over the full alphabet (streamed simplest-first under a 25-minute budget; the evidence says whether it completed)", false: ""}[thorough] +
-		"; 2 input value sets; every depth<=1 program also with w1 declared as graph input (not supplied / supplied with another value), with the graph inputs declared with symbolic dims / without shape, and with the initializer w1 and the graph input a declared as graph outputs (passthrough); with value_info entries for every intermediate value, and with one output name more than the last node's operator returns (declared as graph output: Run must fail); scalar (rank-0) graph inputs with and without an initializer default. Every program is marshalled, loaded with NewModelFromBytes and Run with EVERY intermediate value declared as graph output, and compared value by value with the reference evaluation of the same graph. " +
+		"; 2 input value sets; every depth<=1 program also with w1 declared as graph input (not supplied / supplied with another value), with the graph inputs declared with symbolic dims / without shape, and with the initializer w1 and the graph input a declared as graph outputs (passthrough); with value_info entries for every intermediate value, and with one output name more than the last node's operator returns (declared as graph output: Run must fail), with the last graph output declared twice, and with the caller's map carrying other tensors under the names of the intermediate values (computed correctly or refused); scalar (rank-0) graph inputs with and without an initializer default. Every program is marshalled, loaded with NewModelFromBytes and Run with EVERY intermediate value declared as graph output, and compared value by value with the reference evaluation of the same graph. " +
 		"states = program prefixes, transitions = appended node instances; non-trivial = programs with >= 1 node"
 	c.Assumptions = []string{"reference evaluator: ref interpreter applied node by node to a name->tensor environment (refeval.go)", "tolerance 1e-4 (abs+rel) on float32 values of magnitude <= ~10",
 		"a node listing fewer output names than the operator returns may be refused (positional binding with length check) but must never yield nil / missing outputs"}
@@ -390,7 +407,7 @@ func checkC01(c *hx.Checker) {
 		for _, d := range []string{"symbolic", "typeonly"} {
 			items = append(items, item{p, 1, progVariant{decl: d}})
 		}
-		items = append(items, item{p, 1, progVariant{valueInfo: true}}, item{p, 0, progVariant{extraOut: true}})
+		items = append(items, item{p, 1, progVariant{valueInfo: true}}, item{p, 0, progVariant{extraOut: true}}, item{p, 0, progVariant{dupOut: true}}, item{p, 1, progVariant{fedInter: true}})
 		items = append(items, item{p, 0, progVariant{passthrough: true}}, item{p, 1, progVariant{initAsInput: "w1", passthrough: true}},
 			item{p, 0, progVariant{initAsInput: "w1", supply: true, passthrough: true}}, item{p, 1, progVariant{decl: "typeonly", initAsInput: "w1", supply: true, passthrough: true}})
 	}
@@ -458,6 +475,12 @@ func checkC01(c *hx.Checker) {
 		}
 		if it.pv.extraOut {
 			tags = append(tags, "one-output-name-too-many")
+		}
+		if it.pv.dupOut {
+			tags = append(tags, "output-declared-twice")
+		}
+		if it.pv.fedInter {
+			tags = append(tags, "caller-supplies-intermediate-names")
 		}
 		id := fmt.Sprintf("prog[%s]/vs%d/%+v", it.p.text(), it.vs, it.pv)
 		var sample any
